@@ -93,13 +93,11 @@ def extremaOk (ms : List GlyphMetric) (advMax minFirst minSecond maxExtent : Int
   let me := (maxOfInts (withB.map fun (_, sb, ba) => sb + ba)).getD 0
   advOk && minFirst == mf && minSecond == ms2 && maxExtent == me
 
-def handleCore (directed : Bool) : Handler := fun s =>
+def handleCore (_directed : Bool) : Handler := fun s =>
   match s.field? "panic" with
   | some msg =>
-    -- the random stream only generates in-range, closed, acyclic glyph sets: a panic there is a failure;
-    -- the directed stream deliberately visits overflow points that belong to property C19
-    if directed then { corr := none, oracle := none, tags := ["panic"], detail := toString (Sexp.list msg) }
-    else { corr := some false, oracle := none, cls := "impl-panic", detail := toString (Sexp.list msg) }
+    -- a panic outside the work items (context set-up, fragment construction) is always a failure
+    { corr := some false, oracle := none, cls := "impl-panic", detail := toString (Sexp.list msg) }
   | none =>
   let r : Option Verdict := do
     let asc ← (← s.field1? "asc").asRat?
@@ -112,26 +110,46 @@ def handleCore (directed : Bool) : Handler := fun s =>
     let shapes := gin.map (·.shape)
     let nComposite := (shapes.filter fun sh => match sh with | .composite _ => true | _ => false).length
     let nEmpty := (shapes.filter fun sh => match sh with | .empty => true | _ => false).length
-    if err != Sexp.atom "none" then
-      -- A work item returned Err or panicked.  The only excused cases are the overflow points that the
-      -- theorems exclude by hypothesis and that belong to property C19: the unchecked i16 subtraction
-      -- `vertical_origin - yMax` (vertical_metrics.rs:87) and the unchecked u16 additions of
-      -- update_composite_limits (metrics_and_limits.rs:260-261), each recognised from the *input*.
-      let eBoxes : List (Option Box) := ((impl.field1? "bboxes").bind (·.mapM? parseBox)).getD []
-      let vOrgE : List Int := gin.map fun g => satI16 (otRound (g.vorg.getD asc))
-      let vOverflow := vertical && ((vOrgE.zip eBoxes).any fun (o, b) => !inI16 (o - (b.map (·.yMax)).getD 0))
-      let comp := (List.range n).filter (isComposite shapes)
-      let sumOverflow := comp.any fun gid => specPoints shapes (n + 1) gid > 65535 || specContours shapes (n + 1) gid > 65535
-      let isPanic := match err with | .list (_ :: .atom "panic" :: _) => true | _ => false
-      let what := match err with | .list (.atom w :: _) => w | _ => ""
-      if isPanic && what == "vmtx" && vOverflow then
-        some { corr := none, oracle := none, tags := ["panic", "v-tsb-out-of-i16"], detail := toString err }
-      else if isPanic && what == "hmtx" && sumOverflow then
-        some { corr := none, oracle := none, tags := ["panic", "maxp-out-of-u16"], detail := toString err }
-      else if directed && isPanic then
-        some { corr := none, oracle := none, tags := ["panic"], detail := toString err }
+    -- ---------------- predicted outcome of the work items, in pipeline order (glyf, head, hmtx, vmtx, os2)
+    let mAdv : List (Option Nat) := gin.map fun g => advanceOfWidth g.width
+    let mVAdv : List (Option Nat) := gin.map fun g => advanceOfHeight g.height asc desc
+    let eBoxes : List (Option Box) := ((impl.field1? "bboxes").bind (·.mapM? parseBox)).getD []
+    let glyphsE : List Glyph := (shapes.zip eBoxes).map fun (sh, b) => ⟨sh, b⟩
+    let mMaxpC := buildMaxpC glyphsE
+    let vOrgE : List Int := gin.map fun g => satI16 (otRound (g.vorg.getD asc))
+    let vOverflow := (vOrgE.zip eBoxes).any fun (o, b) => !inI16 (o - (b.map (·.yMax)).getD 0)
+    let assignedUr : List Nat := ((s.field1? "assigned_ur").bind (·.mapM? Sexp.asNat?)).getD []
+    -- (work, kind): kind "OutOfBounds" = the code rejects (944e88e); "panic" = an overflow point the current
+    -- code still mishandles: the unchecked i16 `vertical_origin - y_max` (vertical_metrics.rs:98, C19) and a
+    -- source-assigned Unicode-range bit ≥ 128 (os2.rs:328, C15)
+    let predicted : Option (String × String) :=
+      if mAdv.any Option.isNone then some ("hmtx", "OutOfBounds")
+      else match mMaxpC with
+        | .err => some ("hmtx", "OutOfBounds")
+        | .panic => some ("hmtx", "panic")
+        | .ok _ =>
+          if vertical && mVAdv.any Option.isNone then some ("vmtx", "OutOfBounds")
+          else if vertical && vOverflow then some ("vmtx", "panic")
+          else if assignedUr.any (· ≥ 128) then some ("os2", "panic")
+          else none
+    let observed : Option (String × String) :=
+      match err with
+      | .list (.atom w :: .atom k :: _) => some (w, k)
+      | _ => none
+    if err != Sexp.atom "none" || predicted.isSome then
+      let agree := predicted == observed
+      let tags := ["rejected"] ++ (match predicted with
+        | some (w, k) => [s!"{w}-{k}"] ++ (if k == "panic" && w == "vmtx" then ["v-tsb-out-of-i16"] else [])
+        | none => [])
+      if !agree then
+        some { corr := some false, oracle := none, cls := "impl-outcome", tags := tags,
+               detail := s!"predicted={repr predicted} observed={toString err}" }
+      else if (predicted.map (·.2)) == some "panic" then
+        -- still-mishandled overflow point owned by C19/C15: recorded, not judged here
+        some { corr := none, oracle := none, tags := tags ++ ["panic"], detail := toString err }
       else
-        some { corr := some false, oracle := none, cls := (if isPanic then "impl-panic" else "impl-error"), detail := toString err }
+        -- rejected with Err(OutOfBounds) exactly where the model says: no font, nothing to summarise
+        some { corr := some true, oracle := none, tags := tags }
     else
     let iBoxes ← (← impl.field1? "bboxes").mapM? parseBox
     let iSizes ← (← impl.field1? "sizes").mapM? Sexp.asNat?
@@ -150,12 +168,12 @@ def handleCore (directed : Bool) : Handler := fun s =>
     let mBoxes := shapes.map (glyphBbox shapes fuel)
     let boxesAgree := mBoxes == iBoxes.map some
     let boxes : List (Option Box) := iBoxes   -- the boxes stored in glyf: the data that head/hhea summarise
-    let advances : List Nat := gin.map fun g => (satU16 (otRound g.width)).toNat
+    let advances : List Nat := mAdv.map (·.getD 0)
     let hms := (advances.zip boxes).map fun (a, b) => hMetricOf a b
     let hm := buildMetrics hms
     let hheaAgree := iHhea == [(hm.advanceMax : Int), hm.minFirst, hm.minSecond, hm.maxExtent, hm.longMetrics.length]
     let hmtxAgree := iHmtx == mtxWords hm
-    let vAdv : List Nat := gin.map fun g => (satU16 (otRound (g.height.getD (asc - desc)))).toNat
+    let vAdv : List Nat := mVAdv.map (·.getD 0)
     let vOrg : List Int := gin.map fun g => satI16 (otRound (g.vorg.getD asc))
     let vms := (vAdv.zip (vOrg.zip boxes)).map fun (a, o, b) => vMetricOf a o b
     let vm := buildMetrics vms
@@ -164,12 +182,8 @@ def handleCore (directed : Bool) : Handler := fun s =>
       (iVhea == some [(vm.advanceMax : Int), vm.minFirst, vm.minSecond, vm.maxExtent, vm.longMetrics.length]
         && iVmtx == some (mtxWords vm))
     let glyphs : List Glyph := (shapes.zip boxes).map fun (sh, b) => ⟨sh, b⟩
-    let mMaxp := buildMaxp glyphs
-    let maxpNarrow := match mMaxp with
-      | some m => m.maxPoints > 65535 || m.maxContours > 65535 || m.maxCompositePoints > 65535 ||
-                  m.maxCompositeContours > 65535 || m.maxComponentElements > 65535 || m.maxComponentDepth > 65535
-      | none => false
-    let maxpAgree := maxpNarrow || match mMaxp with
+    let mMaxp := match buildMaxpC glyphs with | .ok m => some m | _ => none
+    let maxpAgree := match mMaxp with
       | some m => iMaxp == [m.numGlyphs, m.maxPoints, m.maxContours, m.maxCompositePoints, m.maxCompositeContours,
                             m.maxComponentElements, m.maxComponentDepth]
       | none => false
@@ -184,12 +198,6 @@ def handleCore (directed : Bool) : Handler := fun s =>
     let (mFirst, mLast) := minMaxCharIndex allCps
     let ur := bitsToWords (unicodeRangeBits allCps) 4
     let cpr := bitsToWords (codepageRangeBits allCps) 2
-    -- two modelled implementations of x_avg_char_width are accepted: the code as it is (binary32 division)
-    -- and the repair of /verif/fixes/C17-os2-avg.patch (integer arithmetic, `xAvgCharWidthFixed`);
-    -- which one was seen is reported in the tags, and the oracle below is the same for both
-    let mAvgFixed := xAvgCharWidthFixed hm.longMetrics n
-    let avgIsFixed := iOs2.getD 0 0 == mAvgFixed && mAvgFixed != mAvg
-    let mAvg := if avgIsFixed then mAvgFixed else mAvg
     let os2Agree := iOs2 == ([mAvg, (mFirst : Int), (mLast : Int)] ++ (ur.map Int.ofNat) ++ (cpr.map Int.ofNat) ++ [0])
     let corr := boxesAgree && hheaAgree && hmtxAgree && vAgree && maxpAgree && headAgree && locaAgree && os2Agree
     -- ---------------- oracle: the property evaluated on the implementation's own output
@@ -239,7 +247,7 @@ def handleCore (directed : Bool) : Handler := fun s =>
     -- (e) maxp maxima from the spec functions
     let gids := List.range n
     let comp := gids.filter (isComposite shapes)
-    let maxpOk := maxpNarrow || iMaxp == [n,
+    let maxpOk := iMaxp == [n,
       listMax (shapes.map fun sh => match sh with | .simple cs => (cs.map List.length).sum | _ => 0),
       listMax (shapes.map fun sh => match sh with | .simple cs => cs.length | _ => 0),
       listMax (comp.map (specPoints shapes fuel)),
@@ -255,7 +263,7 @@ def handleCore (directed : Bool) : Handler := fun s =>
     let nz := advances.filter (· != 0)
     let avgExact := avgOfExact nz.length nz.sum
     let avgInRange := inI16 avgExact
-    let avgOk := !avgInRange || iOs2.getD 0 0 == avgExact
+    let avgOk := iOs2.getD 0 0 == satI16 avgExact
     let uniq := allCps
     let firstLastOk := uniq.isEmpty ||
       (iOs2.getD 1 0 == ((min ((uniq.foldl min (uniq.headD 0))) 0xFFFF : Nat) : Int) &&
@@ -292,15 +300,13 @@ def handleCore (directed : Bool) : Handler := fun s =>
       (if (shapes.any fun sh => match sh with
           | .composite comps => (resolvedPoints shapes fuel comps Affine.identity).any fun p => !(inI16 (otRound p.1) && inI16 (otRound p.2))
           | _ => false) then ["bbox-saturated"] else []) ++
-      (if maxpNarrow then ["maxp-out-of-u16"] else []) ++
       (if allCps.isEmpty then ["no-codepoints"] else []) ++
       (if (shapes.any fun sh => match sh with
           | .composite comps => (resolvedPoints shapes fuel comps Affine.identity).isEmpty
           | _ => false) then ["empty-composite-counted"] else []) ++
       (if !hInRange then ["h-clamped"] else []) ++ (if !avgInRange then ["avg-out-of-i16"] else []) ++
       (if fmtNat == 1 then ["loca-long"] else []) ++
-      (if avgOfF32 nz.length nz.sum != avgExact then ["avg-f32-differs"] else []) ++
-      (if avgIsFixed then ["avg-impl-is-integer-formula"] else [])
+      (if avgOfF32 nz.length nz.sum != satI16 avgExact then ["avg-old-f32-would-differ"] else [])
     let detail :=
       if corr && oracle then "" else
         s!"model: hhea={repr [(hm.advanceMax : Int), hm.minFirst, hm.minSecond, hm.maxExtent, hm.longMetrics.length]} maxp={repr mMaxp} head={repr hb} os2={repr ([mAvg, (mFirst : Int), (mLast : Int)])} ur={repr ur} cpr={repr cpr} avgExact={avgExact}"
